@@ -318,3 +318,23 @@ VARIANTS += [
     ("C15-days-in-month", "C15", DATE, "return calendar.monthrange(self.year, self.month)[1]", "return calendar.monthrange(self.year, self.month)[0]", "DELEGATE"),
     ("C15-weekday-enum", "C15", "src/pendulum/day.py", "    MONDAY = 0\n    TUESDAY = 1", "    MONDAY = 1\n    TUESDAY = 0", "TABLES.enum"),
 ]
+
+VARIANTS += [
+    ("C16-clean", "C16", None, "", "", None),
+    ("C16-next-nostep", "C16", DT, "        dt = dt.add(days=1)\n        while dt.day_of_week != day_of_week:\n            dt = dt.add(days=1)", "        while dt.day_of_week != day_of_week:\n            dt = dt.add(days=1)", "NAV.shape"),
+    ("C16-previous-add", "C16", DATE, "        dt = self.subtract(days=1)\n        while dt.day_of_week != day_of_week:\n            dt = dt.subtract(days=1)", "        dt = self.subtract(days=1)\n        while dt.day_of_week != day_of_week:\n            dt = dt.add(days=1)", "NAV.shape"),
+    ("C16-validate-upper", "C16", DT, "        if day_of_week < WeekDay.MONDAY or day_of_week > WeekDay.SUNDAY:\n            raise ValueError(\"Invalid day of week\")\n\n        dt = self if keep_time else self.start_of(\"day\")\n\n        dt = dt.add(days=1)", "        if day_of_week < WeekDay.MONDAY:\n            raise ValueError(\"Invalid day of week\")\n\n        dt = self if keep_time else self.start_of(\"day\")\n\n        dt = dt.add(days=1)", "NAV.shape"),
+    ("C16-keep-time-inverted", "C16", DT, "        dt = self if keep_time else self.start_of(\"day\")\n\n        dt = dt.subtract(days=1)", "        dt = self.start_of(\"day\") if keep_time else self\n\n        dt = dt.subtract(days=1)", "NAV.shape"),
+    ("C16-rename-local", "C16", DATE, "        dt = self.subtract(days=1)\n        while dt.day_of_week != day_of_week:\n            dt = dt.subtract(days=1)\n\n        return dt", "        d = self.subtract(days=1)\n        while d.day_of_week != day_of_week:\n            d = d.subtract(days=1)\n\n        return d", None),
+    ("C16-nth-range", "C16", DATE, "        dt = self.first_of(\"year\")\n        year = dt.year\n        for _ in range(nth - (1 if dt.day_of_week == day_of_week else 0)):", "        dt = self.first_of(\"year\")\n        year = dt.year\n        for _ in range(nth - (1 if dt.day_of_week != day_of_week else 0)):", "CLONE.shape"),
+    ("C16-nth-no-shortcut-adj", "C16", DT, "        dt = self.first_of(\"month\")\n        check = dt.format(\"%Y-%M\")\n        for _ in range(nth - (1 if dt.day_of_week == day_of_week else 0)):", "        dt = self.first_of(\"month\")\n        check = dt.format(\"%Y-%M\")\n        for _ in range(nth):", "CLONE.shape"),
+    ("C16-quarter-escape", "C16", DT, "        if last_month < dt.month or year != dt.year:\n            return None\n\n        return self.on(self.year, dt.month, dt.day).start_of(\"day\")\n\n    def _first_of_year", "        if last_month <= dt.month or year != dt.year:\n            return None\n\n        return self.on(self.year, dt.month, dt.day).start_of(\"day\")\n\n    def _first_of_year", "CLONE.shape"),
+    ("C16-first-row", "C16", DATE, "            day_of_month = month[1][calendar_day]", "            day_of_month = month[2][calendar_day]", "CLONE.shape"),
+    ("C16-last-row", "C16", DT, "        if month[-1][calendar_day] > 0:\n            day_of_month = month[-1][calendar_day]", "        if month[-1][calendar_day] > 0:\n            day_of_month = month[-2][calendar_day]", "CLONE.shape"),
+    ("C16-quarter-first-month", "C16", DT, "return self.on(self.year, self.quarter * 3 - 2, 1).first_of(", "return self.on(self.year, self.quarter * 3 - 1, 1).first_of(", "CLONE.shape"),
+    ("C16-last-year-month", "C16", DATE, "return self.set(month=MONTHS_PER_YEAR).last_of(\"month\", day_of_week)", "return self.set(month=11).last_of(\"month\", day_of_week)", "CLONE.shape"),
+    ("C16-nth-result-month", "C16", DATE, "        return self.set(self.year, dt.month, dt.day)\n\n    def average", "        return self.set(self.year, self.month, dt.day)\n\n    def average", "CLONE.shape"),
+    ("C16-nth-midnight", "C16", DT, "            return self.set(day=dt.day).start_of(\"day\")", "            return self.set(day=dt.day)", "CLONE.midnight"),
+    ("C16-nth-error", "C16", DT, "        if not dt:\n            raise PendulumException(", "        if dt:\n            raise PendulumException(", "DISPATCH.nth-error"),
+    ("C16-dispatch-units", "C16", DATE, "        if unit not in [\"month\", \"quarter\", \"year\"]:\n            raise ValueError(f'Invalid unit \"{unit}\" for first_of()')\n\n        return cast(\"Self\", getattr(self, f\"_last_of_{unit}\")(day_of_week))", "        if unit not in [\"month\", \"year\"]:\n            raise ValueError(f'Invalid unit \"{unit}\" for first_of()')\n\n        return cast(\"Self\", getattr(self, f\"_last_of_{unit}\")(day_of_week))", "DISPATCH.units"),
+]
